@@ -1,0 +1,48 @@
+//go:build verif
+
+package vm
+
+// Contracts for the verif build tag (comment-only; see /verif/DESIGN.md).
+
+//@ import util github.com/nspcc-dev/neo-go/pkg/util
+//@ import callflag github.com/nspcc-dev/neo-go/pkg/smartcontract/callflag
+
+// Observer abstraction used by the witness-scope proofs (C15): the facts a scope check reads
+// from the VM are named by ghost fields and the accessors are assumed to return them (they
+// are pure reads of the invocation stack).
+//@ ghost VM.cur util.Uint160
+//@ ghost VM.calling util.Uint160
+//@ ghost VM.cbe bool
+//@ ghost VM.flags callflag.CallFlag
+//@ ghost Context.cbe bool
+//@ ghost Context.flags callflag.CallFlag
+
+//@ func (*VM).GetCurrentScriptHash
+//@ assumed
+//@ pure
+//@ requires v != nil
+//@ ensures result == v.cur
+
+//@ func (*VM).GetCallingScriptHash
+//@ assumed
+//@ pure
+//@ requires v != nil
+//@ ensures result == v.calling
+
+//@ func (*VM).Context
+//@ assumed
+//@ pure
+//@ requires v != nil
+//@ ensures result != nil && result.cbe == v.cbe && result.flags == v.flags
+
+//@ func (*Context).IsCalledByEntry
+//@ assumed
+//@ pure
+//@ requires c != nil
+//@ ensures result == c.cbe
+
+//@ func (*Context).GetCallFlags
+//@ assumed
+//@ pure
+//@ requires c != nil
+//@ ensures result == c.flags
